@@ -390,3 +390,34 @@ def callee_res(t):
         return None
     r = c.get("res")
     return r["path"] if r else c["path"]
+
+
+# ---- discriminant switches and arms ------------------------------------------------------------------
+
+def discr_switches(body):
+    """[(bb, scrutinee origin, {value: target}, otherwise)] for live switch terminators."""
+    out = []
+    live = body.live_blocks()
+    for i in sorted(live):
+        t = body.blocks[i]["t"]
+        if t["k"] == "switch":
+            out.append((i, body.origin_operand(t["o"]), {int(v): bb for v, bb in t["targets"]}, t["otherwise"]))
+    return out
+
+
+def dominated(body, b):
+    """Set of live blocks dominated by b."""
+    return {x for x in body.live_blocks() if body.dominates(b, x)}
+
+
+def calls_in(body, blocks):
+    return [(i, t) for i, t in body.calls() if i in blocks]
+
+
+def assigns_to(body, local, blocks=None):
+    """[(bb, rvalue|call-terminator)] whole-local definitions of `local` (optionally restricted to blocks)."""
+    out = []
+    for d in body.defs().get(local, []):
+        if blocks is None or d[0] in blocks:
+            out.append((d[0], d[3], d[2]))
+    return out
